@@ -35,6 +35,7 @@ type writerSpec struct {
 type cfg struct {
 	Starve  bool         `json:"starve,omitempty"` // the schedule may let Close poll any number of times in a row (sender starved)
 	QCap    int          `json:"qcap"`             // 0 = synchronous channel
+	FailW   int          `json:"failw,omitempty"`  // synchronous channel: the k-th transport Write/Writev call fails
 	Until   bool         `json:"until"`
 	Writers []writerSpec `json:"writers"`
 	Closers []int        `json:"closers"` // error ids; 0 = Close(nil)
@@ -144,6 +145,7 @@ func runCfg(c cfg, choose func(step int, en []*sched.Thread, last *sched.Thread)
 	if c.QCap == 0 {
 		ch = netty.NewChannel()(1, parent, pl, tr, ex)
 		tr.Yield = func(p string) { s.Yield(p, nil) }
+		tr.FailWrite = c.FailW
 	} else {
 		ch = netty.NewAsyncWriteChannel(c.QCap, c.Until)(1, parent, pl, tr, ex)
 	}
@@ -482,6 +484,11 @@ func check(c cfg, o *obs, meta *hx.Meta) {
 			meta.Violate(hx.Violation{Property: "C05", What: fmt.Sprintf("the inactive event carries error identity %d, the Close call that took effect was given %d", o.Inactive[0], o.Winner), Signature: "wrong-inactive-error", Replay: rep()})
 		}
 	}
+	for _, p := range o.Parked {
+		if strings.HasSuffix(p, "@w.lock") {
+			meta.Violate(hx.Violation{Property: "C07", What: "a write call waits for the write lock for ever (" + p + "): an earlier call left the lock held after its transport write failed - the channel is open but unusable", Signature: "write-lock-never-released", Replay: rep()})
+		}
+	}
 	// no stranded writes / deadlock at quiescence
 	if len(o.Parked) > 0 {
 		what := "threads parked for ever at quiescence: " + strings.Join(o.Parked, ",")
@@ -620,6 +627,74 @@ func (c cfg) coq(id int, o *obs) string {
 	}
 	return fmt.Sprintf("{| cc_id := %d; cc_qcap := %d; cc_until := %s; cc_threads := %s; cc_sched := %s; cc_obs := %s |}",
 		id, c.QCap, hx.Bool(c.Until), hx.List(ths), hx.List(sch), o.coqObs(c))
+}
+
+// the synchronous channel: a case for Model/SyncChan.v (threads in spawn order: writers, closers, [parent], pool user)
+func (c cfg) coqSync(id int, o *obs) string {
+	var ths []string
+	for w, ws := range c.Writers {
+		var ids []string
+		for k := range ws.Calls {
+			ids = append(ids, fmt.Sprint(w*100+k+1))
+		}
+		ths = append(ths, fmt.Sprintf("YWriter %s YCheck []", hx.List(ids)))
+	}
+	for _, e := range c.Closers {
+		ths = append(ths, fmt.Sprintf("YCloser %d KCas", e))
+	}
+	if c.Parent {
+		ths = append(ths, "YDone")
+	}
+	ths = append(ths, "YDone") // pool user
+	var sch []string
+	writes := 0
+	for _, st := range o.Trace {
+		if st.Name == "parent" {
+			if st.Point == "start" {
+				sch = append(sch, "YParent")
+			}
+			continue
+		}
+		if !pointOK(st.Name, st.Point) {
+			continue
+		}
+		fail := false
+		if st.Point == "t.write" || st.Point == "t.writev" {
+			writes++
+			fail = writes == c.FailW
+		}
+		sch = append(sch, fmt.Sprintf("YRun %d %s", st.Thread, hx.Bool(fail)))
+	}
+	var res []string
+	for w := range c.Writers {
+		var rs []string
+		for _, cl := range o.Calls {
+			if cl.W != w || cl.Res == "" {
+				continue
+			}
+			r := "YOk"
+			if cl.Res != "ok" {
+				r = "YClosed"
+				if cl.ErrID == -1 {
+					r = "YFail" // the transport's own error
+				}
+			}
+			rs = append(rs, fmt.Sprintf("(%d, %s)", cl.Cid, r))
+		}
+		res = append(res, hx.List(rs))
+	}
+	var tl []string
+	for _, b := range o.Batches {
+		for _, x := range b {
+			tl = append(tl, fmt.Sprint(x))
+		}
+	}
+	ina := make([]string, len(o.Inactive))
+	for i := range o.Inactive {
+		ina[i] = fmt.Sprint(o.Inactive[i])
+	}
+	return fmt.Sprintf("{| yc_id := %d; yc_threads := %s; yc_sched := %s; yc_results := %s; yc_tlog := %s; yc_tclosed := %d; yc_inactive := %s; yc_closed := %s; yc_ctx := %s; yc_parked := %s |}",
+		id, hx.List(ths), hx.List(sch), hx.List(res), hx.List(tl), o.TClosed, hx.List(ina), hx.Bool(o.Final.Closed), hx.Bool(o.Final.CtxDone), hx.Bool(len(o.Parked) > 0 || o.Stuck != ""))
 }
 
 func (o *obs) coqObs(c cfg) string {
